@@ -47,7 +47,8 @@ func processCfg() int {
 func genCase(t *rapid.T) Case {
 	c := Case{Cfg: processCfg()}
 	cfg := &sc.Configs[c.Cfg]
-	c.Excl = sc.Excl{ZeroStake: kit.IsKnown(classZeroStake), ZeroToken: kit.IsKnown(classZeroPenalty)}
+	// NoNegRec: the staking prelude never combines a self-withdrawal and an unbind of one validator in one period (C06/C07 finding negative-pending-record)
+	c.Excl = sc.Excl{ZeroStake: kit.IsKnown(classZeroStake), ZeroToken: kit.IsKnown(classZeroPenalty), NoNegRec: true}
 	known := sc.KnownEv{DupPair: kit.IsKnown(classDup), CrossKind: kit.IsKnown(classCrossKind), NextIndex: kit.IsKnown(classNextIndex)}
 	c.Gen = sc.GenGenesis(t, cfg)
 	switch rapid.IntRange(0, 9).Draw(t, "setup") {
